@@ -8,7 +8,7 @@ LEVEL = "model_checking"
 def run(rep, tier):
     wd = common.workdir("C10")
     tot = 0
-    for name in ("c09", "c08", "c07", "mag"):
+    for name in ("c09", "c08", "c07", "mag", "wide"):
         events, bad = halpipe.run_corpus(rep, wd, name, tier)
         nb = halpipe.report(rep, events, bad, {"be"}, name)
         tot += len(events)
